@@ -35,10 +35,6 @@ theorem argmin_fold {β : Type} (f : β → ℚ) (g : β → Nat × Nat) (l : Li
         · exact Or.inl h3
         · exact Or.inr ⟨x, by simp [hx], h3⟩
 
-/-- the upper-triangle positions in the order the C loops visit them -/
-def upperPairs (N : Nat) : List (Nat × Nat) :=
-  (List.range N).flatMap fun row => (List.range' (row + 1) (N - (row + 1))).map fun col => (row, col)
-
 theorem mem_upperPairs {N r c : Nat} : (r, c) ∈ upperPairs N ↔ r < c ∧ c < N := by
   unfold upperPairs
   simp only [List.mem_flatMap, List.mem_range, List.mem_map, List.mem_range', Prod.mk.injEq]
@@ -48,25 +44,17 @@ theorem mem_upperPairs {N r c : Nat} : (r, c) ∈ upperPairs N ↔ r < c ∧ c <
   · rintro ⟨h1, h2⟩
     exact ⟨r, by omega, c, ⟨c - (r + 1), by omega, by omega⟩, rfl, rfl⟩
 
-theorem findMin_eq_fold (D : Array ℚ) (n N : Nat) :
-    findMin D n N = (upperPairs N).foldl
-      (fun st x => if ltb (mget D n x.1 x.2) st.1 then (mget D n x.1 x.2, x) else st) (mget D n 0 1, 0, 1) := by
-  unfold findMin upperPairs
-  rw [List.foldl_flatMap]
-  congr 1
-  funext st row
-  rw [List.foldl_map]
-
-/-- `findMin`: the value returned is the entry at the returned position, it is ≤ every entry of the upper triangle
-    of the current N×N matrix, and (N ≥ 2) the position is inside the upper triangle -/
-theorem findMin_spec (D : Array ℚ) (n N : Nat) (hN : 2 ≤ N) :
-    (findMin D n N).1 = mget D n (findMin D n N).2.1 (findMin D n N).2.2 ∧
-    (∀ r c, r < c → c < N → (findMin D n N).1 ≤ mget D n r c) ∧
-    (findMin D n N).2.1 < (findMin D n N).2.2 ∧ (findMin D n N).2.2 < N := by
-  rw [findMin_eq_fold]
-  have h := argmin_fold (fun x : Nat × Nat => mget D n x.1 x.2) id (upperPairs N) (mget D n 0 1, 0, 1)
+/-- `kfindMin`: the value returned is the distance of the clusters at the returned positions, it is ≤ the distance of every
+    pair of active positions, and (N ≥ 2) the positions satisfy i < j < N -/
+theorem kfindMin_spec (rows : Array (Array ℚ)) (act : Array Nat) (hN : 2 ≤ act.size) :
+    (kfindMin rows act).1 = kdist rows (act.getD (kfindMin rows act).2.1 0) (act.getD (kfindMin rows act).2.2 0) ∧
+    (∀ r c, r < c → c < act.size → (kfindMin rows act).1 ≤ kdist rows (act.getD r 0) (act.getD c 0)) ∧
+    (kfindMin rows act).2.1 < (kfindMin rows act).2.2 ∧ (kfindMin rows act).2.2 < act.size := by
+  have h := argmin_fold (fun x : Nat × Nat => kdist rows (act.getD x.1 0) (act.getD x.2 0)) id (upperPairs act.size)
+    (kdist rows (act.getD 0 0) (act.getD 1 0), 0, 1)
   simp only [id] at h
   obtain ⟨_, h2, h3⟩ := h
+  unfold kfindMin
   refine ⟨?_, ?_, ?_⟩
   · rcases h3 with h3 | ⟨x, _, h3⟩
     · rw [h3]
@@ -74,23 +62,24 @@ theorem findMin_spec (D : Array ℚ) (n N : Nat) (hN : 2 ≤ N) :
   · intro r c hrc hc
     exact h2 (r, c) (mem_upperPairs.mpr ⟨hrc, hc⟩)
   · rcases h3 with h3 | ⟨x, hx, h3⟩
-    · rw [h3]; exact ⟨by show 0 < 1; omega, by show 1 < N; omega⟩
+    · rw [h3]; exact ⟨by show 0 < 1; omega, by show 1 < act.size; omega⟩
     · rw [h3]
       obtain ⟨r, c⟩ := x
       exact mem_upperPairs.mp hx
 
-/-- every pass of the UPGMA loop joins a pair at minimum distance among the N = n - step active rows/columns, at
-    height half that distance -/
-theorem upgmaStep_joins_minimum (n : Nat) (st : UState ℚ) (step : Nat) (hN : 2 ≤ n - step) :
-    stepI n st step < stepJ n st step ∧ stepJ n st step < n - step ∧
-    (∀ r c, r < c → c < n - step → mget st.D n (stepI n st step) (stepJ n st step) ≤ mget st.D n r c) ∧
-    stepH n st step = mget st.D n (stepI n st step) (stepJ n st step) / 2 := by
-  obtain ⟨h1, h2, h3, h4⟩ := findMin_spec st.D n (n - step) hN
+/-- every pass of the UPGMA loop joins a pair of clusters at minimum distance among the active ones, at height half that
+    distance -/
+theorem kstep_joins_minimum (st : KState ℚ) (hN : 2 ≤ st.act.size) :
+    kPosI st < kPosJ st ∧ kPosJ st < st.act.size ∧
+    (∀ r c, r < c → c < st.act.size → kdist st.rows (kI st) (kJ st) ≤ kdist st.rows (st.act.getD r 0) (st.act.getD c 0)) ∧
+    kH st = kdist st.rows (kI st) (kJ st) / 2 := by
+  obtain ⟨h1, h2, h3, h4⟩ := kfindMin_spec st.rows st.act hN
   refine ⟨h3, h4, ?_, ?_⟩
   · intro r c hrc hc
     have := h2 r c hrc hc
-    unfold stepI stepJ stepMin
+    unfold kI kJ kPosI kPosJ kMin
     rw [← h1]; exact this
-  · unfold stepH stepI stepJ stepMin
+  · unfold kH kI kJ kPosI kPosJ kMin
     rw [← h1]; simp
+
 end EaselModel.Weights
